@@ -837,6 +837,17 @@ func runC13(c *h.Ctx) {
 				// binary operators need exactly one numeric item per side
 				for _, op := range c13Ops {
 					for _, form := range []string{"$[*] %s 1", "1 %s $[*]", "$.nokey %s 1", `"a" %s 1`, `1 %s null`, `$[0] %s $[1]`} {
+						if fp := cachedPath(mode + fmt.Sprintf(form, op)); fp != nil {
+							// the entry point that wants one item applies the same rule
+							oq := h.Call("query", fp, h.Decode(sq, useNum), h.Opts{})
+							of := h.Call("first", fp, h.Decode(sq, useNum), h.Opts{})
+							c.Eval(2)
+							if oq.Class != h.Panic && of.Class != h.Panic && oq.Class != h.Invalid && (oq.Class != of.Class || oq.Class == h.OK && len(oq.Items) > 0 && h.CanonTyped(oq.Items[0]) != h.CanonTyped(of.Val)) {
+								c.Violate("singleton", h.F("op", op, "form", form, "mode", mode, "entry", "first"), fmt.Sprintf("Query(%s) on %s = %s but First = %s", mode+fmt.Sprintf(form, op), sq, oq.Summary(), of.Summary()), h.Case{Kind: "singleton", Path: mode + fmt.Sprintf(form, op), Doc: sq, UseNum: useNum})
+							} else {
+								c.Held("singleton")
+							}
+						}
 						ptxt := mode + fmt.Sprintf(form, op)
 						p := cachedPath(ptxt)
 						if p == nil {
@@ -896,6 +907,73 @@ func runC13(c *h.Ctx) {
 							c.Violate("singleton", h.F("op", op, "form", form, "mode", mode), fmt.Sprintf("Query(%s) on %s = %s; error expected: %v", ptxt, sq, o.Summary(), expErr), cs)
 						} else {
 							c.Held("singleton")
+						}
+					}
+				}
+			}
+		}
+	}
+	// an operand selected by a subscript list or range and a filter: exactly one
+	// number gets through, whichever candidate it was - the first, the last
+	{
+		k := 0
+		for _, d := range []string{`[5,-1]`, `[-1,5]`, `[5,7]`, `[-1,-2]`, `[5,-1,-2]`, `[-2,5,-1]`} {
+			for _, opnd := range []string{"$[0 to 1] ? (@ > 0)", "$[0,1] ? (@ > 0)", "$[0 to last] ? (@ > 0)", "$[last,0] ? (@ > 0)", "$[*] ? (@ > 0)", "$[0,1].double() ? (@ > 0)"} {
+				for _, mode := range []string{"", "strict "} {
+					k++
+					if !c.Mine(k) {
+						continue
+					}
+					arr := h.Decode(d, false).([]any)
+					// which elements does the operand select? (indices as written)
+					var sel []float64
+					idx := map[string][]int{"$[0 to 1]": {0, 1}, "$[0,1]": {0, 1}, "$[0 to last]": nil, "$[last,0]": {len(arr) - 1, 0}, "$[*]": nil, "$[0,1].double()": {0, 1}}
+					for pre, ix := range idx {
+						if strings.HasPrefix(opnd, pre+" ") {
+							if ix == nil {
+								for i := range arr {
+									ix = append(ix, i)
+								}
+							}
+							for _, i := range ix {
+								if v := arr[i].(float64); v > 0 {
+									sel = append(sel, v)
+								}
+							}
+						}
+					}
+					for _, form := range []string{"%s + 1", "1 + %s", "%s * 2", "-(%s)", "(%s) - 1"} {
+						ptxt := mode + fmt.Sprintf(form, opnd)
+						p := cachedPath(ptxt)
+						if p == nil {
+							continue
+						}
+						o := h.Call("query", p, h.Decode(d, false), h.Opts{})
+						c.Eval(1)
+						if o.Class == h.Panic || o.Class == h.Invalid {
+							continue
+						}
+						cs := h.Case{Kind: "singleton", Path: ptxt, Doc: d}
+						switch {
+						case strings.HasPrefix(form, "-("):
+							// unary: one result per selected number
+							if o.Class != h.OK || len(o.Items) != len(sel) {
+								c.Violate("unary.map", h.F("form", "filtered-operand", "mode", mode), fmt.Sprintf("Query(%s) on %s = %s; the operand selects %v", ptxt, d, o.Summary(), sel), cs)
+							} else {
+								c.Held("unary.map")
+							}
+						case len(sel) == 1:
+							if o.Class != h.OK || len(o.Items) != 1 {
+								c.Violate("singleton", h.F("form", "filtered-operand", "mode", mode), fmt.Sprintf("Query(%s) on %s = %s; the operand selects exactly one number (%v)", ptxt, d, o.Summary(), sel), cs)
+							} else {
+								c.Held("singleton")
+							}
+						default:
+							if o.Class != h.Soft {
+								c.Violate("singleton", h.F("form", "filtered-operand", "mode", mode), fmt.Sprintf("Query(%s) on %s = %s; the operand selects %d numbers (%v): a suppressible error is due", ptxt, d, o.Summary(), len(sel), sel), cs)
+							} else {
+								c.Held("singleton")
+							}
 						}
 					}
 				}
